@@ -3,16 +3,18 @@
 # change applied (undone straight afterwards); prints one line per check. Never run concurrently
 # with another command that reads /repo.
 set -u
+R=${EVAL_REPO:-/repo}  # EVAL_REPO: a scratch worktree of /repo to evaluate in (then KV_REPO points the checks at it)
+export KV_REPO=$R
 name="$1"; shift
 d=/verif/seeded/$name
 prop=$(python3 -c "import json;print(json.load(open('$d/meta.json'))['property'])")
 ids="$*"; [ -z "$ids" ] && ids="$prop"
-[ -n "$(git -C /repo status --porcelain)" ] && { echo "/repo not clean"; exit 3; }
-git -C /repo apply "$d/patch.diff" 2>/dev/null || git -C /repo apply --3way "$d/patch.diff" >/dev/null 2>&1 || { echo "$name: patch does not apply"; git -C /repo checkout -- .; git -C /repo reset -q; exit 4; }
-git -C /repo reset -q
+[ -n "$(git -C $R status --porcelain)" ] && { echo "/repo not clean"; exit 3; }
+git -C $R apply "$d/patch.diff" 2>/dev/null || git -C $R apply --3way "$d/patch.diff" >/dev/null 2>&1 || { echo "$name: patch does not apply"; git -C $R checkout -- .; git -C $R reset -q; exit 4; }
+git -C $R reset -q
 for id in $ids; do
   KV_OUT=/tmp/kvout_re_$name timeout 2400 /verif/check $id quick > /tmp/re_$name.$id.log 2>&1; rc=$?
   echo "$name $id exit=$rc viol=$(grep -c '^VIOLATION' /tmp/re_$name.$id.log) $(grep -m1 -A1 '^VIOLATION' /tmp/re_$name.$id.log | tail -1 | cut -c1-160) $(grep -m1 INCONCLUSIVE /tmp/re_$name.$id.log | cut -c1-160)"
 done
-git -C /repo checkout -- .
+git -C $R checkout -- .
 rm -rf /tmp/kvout_re_$name
